@@ -54,5 +54,5 @@ func C08(run *vf.Run) {
 	}
 	// code -> spec over arbitrary rule sets: recorded executions of the repository's test profiles, the Core Rule Set and
 	// generated rule sets must be behaviours of Flow.tla (Flow_Trace.tla)
-	FlowTraceStage(run, "profiles", "crs", "generated")
+	FlowTraceStage(run, "profiles", "crs", "generated", "api")
 }
